@@ -697,6 +697,20 @@ pub fn f7_curated() -> Vec<Def> {
     mk(true, vec![Pat::regex("[a-z]+", 0), Pat::regex("[a-z]+\\z", 0).prio(9), Pat::skip(" ")]);
     mk(true, vec![Pat::token("if", 0), Pat::regex("if(?-u:\\b)", 0).prio(50), Pat::regex("[a-zA-Z_][a-zA-Z0-9_]*", 0).prio(3)]);
     mk(false, vec![Pat::regex("ab", 0), Pat::regex("ab(?m:$)", 0).prio(7), Pat::token("\n", 0), Pat::regex("abc", 0)]);
+    // more than 8 (and more than 16) distinct loop / test masks: several LUT tables, every bit position
+    {
+        let mut pats = vec![];
+        for k in 0..20u32 {
+            // irregular class: letters whose index has a bit in common with k+1, never the prefix letters
+            let cls: String = (0..16u32).filter(|j| (j + 3 * k) % 5 != 0 && (j ^ k) % 3 != 1).map(|j| (b'a' + 5 + j as u8) as char).collect();
+            let prefix = ["0", "1", "2", "3", "4", "5", "6", "7", "8", "9", "A", "B", "C", "D", "E", "F", "G", "H", "I", "J"][k as usize];
+            pats.push(Pat::regex(&format!("{prefix}[{cls}]+"), 0));
+        }
+        mk(true, pats.clone());
+        mk(false, pats.into_iter().take(11).collect());
+    }
+    // only skips, no variant at all
+    mk(true, vec![Pat::skip("[ \\n]+"), Pat::skip("#[a-z]*")]);
     // no pattern can ever match (empty languages): the root must not keep edges into itself
     mk(true, vec![Pat::regex("[a-c]*(x$y)+", 0)]);
     mk(false, vec![Pat::regex("a+$b", 0), Pat::regex("[a-c]*\\zq", 0).prio(9)]);
